@@ -40,7 +40,7 @@ def strategy_(draw, tier):
         names.append("%d%s" % (i, nm))  # distinct by construction
     return {"kinds": kinds, "names": names,
             "dot": draw(st.sampled_from([".", "dotdir/sub/..", "dotdir/.", "./", "dotdir/./", "dotdir/sub/../"])),
-            "mode": draw(st.sampled_from(["none", "none", "-f", "-i", "-v", "-fv"])),
+            "mode": draw(st.sampled_from(["none", "none", "-f", "-i", "-v", "-fv", "td_rel", "td_abs"])),
             "reply": draw(st.sampled_from(["y", "n", "", "Y", "no", "yes"])),
             "uid": draw(st.sampled_from([1000, 0]))}
 
@@ -61,8 +61,8 @@ def build(case):
     first_ok = None
     for k, nm in zip(case["kinds"], case["names"]):
         p = home + "/w/" + nm
-        if k == "dot" and "dashname" in case["kinds"]:
-            k = "nonexistent"   # ('.' would contain the dash-named entries of the working directory)
+        if k == "dot" and ("dashname" in case["kinds"] or case.get("mode") == "td_rel"):
+            k = "nonexistent"   # ('.' would contain the dash-named entries / the relative trash dir of the working directory)
         if k == "dup":
             if first_ok is None:
                 k = "file"
@@ -141,7 +141,9 @@ def run_case(case):
     out = Outcome()
     spec, args, metas = build(case)
     mode = case["mode"]
-    opts = {"none": [], "-f": ["-f"], "-i": ["-i"], "-v": ["-v"], "-fv": ["-f", "-v"]}[mode]
+    opts = {"none": [], "-f": ["-f"], "-i": ["-i"], "-v": ["-v"], "-fv": ["-f", "-v"],
+            # an explicit trash directory, named relative to the working directory / absolutely
+            "td_rel": ["--trash-dir", "rel trash"], "td_abs": ["--trash-dir", "/home/u/abs trash"]}[mode]
     stdin = (case["reply"] + "\n") * (len(args) + 2)
     force = "-f" in opts
     declined = mode == "-i" and not case["reply"].lower().startswith("y")
